@@ -157,7 +157,7 @@ class World(object):
     def __init__(self, dt=1.0 / 64, mtu=1500, n_clients=1, order="cs", latency=1, chooser=None,
                  monitors=(), server_cfg=None, client_cfg=None, key_offset=0, fates=(), fate_filter=None,
                  pinned=True, start_time=1000.0, client_addrs=None, rnd_seed=0, token_source=None,
-                 connect_callback=False, autoconnect=True, server_send="twisted"):
+                 connect_callback=False, autoconnect=True, server_send="twisted", root_index=None):
         self.dt = dt
         self.mtu = mtu
         self.order = order
@@ -196,7 +196,8 @@ class World(object):
             Packet.setMTU(mtu)
 
         # ---- server
-        self.root_key = self.keypool.new()
+        # root_index: fix the server's long-term key independently of the ephemeral key pool position
+        self.root_key = self.keypool.new() if root_index is None else seams.fixture_keys()[root_index]
         self.handler = RecHandler(self)
         self.ctxt = ServerContext(self.handler, self.root_key)
         for k, v in (server_cfg or {}).items():
